@@ -11,6 +11,21 @@ CLAIMED = {
          "Every writer program of the stated finite spaces (all 255 aligned section residues x prototypes x point counts; all API programs to depth 3/4 over a 30-op alphabet; point counts around 1x/2x/3x the natural packet capacity; hooked packet capacity 1..9 x every catalogue type incl. widths 0..64) is executed on the real E57Writer and read back with the real raw reader; the oracle is the harness's own record of the values handed in, compared bit-for-bit. Exhaustive within the stated catalogues and bounds.",
          "values are drawn from finite catalogues (boundaries, walking bits, float specials); programs are bounded in depth; rustc/std and the in-memory device are trusted",
          "DESIGN.md §5 C01"),
+ "C02": ("model_checking",
+         "bounded-exhaustive enumeration of writer programs; each produced file judged by an independent zero-dependency E57 decoder/validator (e57spec)",
+         "Every program of the C01 spaces (255 residues, depth-3/4 programs x 3 finalize modes, hooked capacities x all catalogue types) and blob/image payload lengths 0..1023 is written by the real writer and must satisfy rules R1-R10 of the independent validator (size, page CRCs, header fields, XML well-formedness / namespaces / element names and types, offsets and section ids, section / packet lengths, alignment, exact stream byte counts, blob section-length convention, non-overlap) and decode with e57spec to exactly the content handed to the writer.",
+         "the rule set encodes ASTM E2807 as exhibited by the foreign-written files in /repo/testdata (all validate cleanly); a few element names are from the standard from memory (DESIGN.md)",
+         "DESIGN.md §5 C02"),
+ "C03": ("model_checking",
+         "deviation-bounded exhaustive DFS over the layout choice points of an independent encoder; every emitted file validated by the independent decoder and then read by the real reader",
+         "10 scenes x all layouts with <=2 (thorough <=3) simultaneous deviations from canonical over: data packets per cloud, every byte cut of every record stream, index/ignored packets at every gap, data/index offsets, section order, gaps (every aligned residue in a dedicated stage), omitted default attributes, XML lexical forms; the real raw reader must return exactly the encoded scene.",
+         "only layouts libE57Format accepts are generated; scenes are small (<=5 points per cloud)",
+         "DESIGN.md §5 C03"),
+ "C05": ("model_checking",
+         "deviation-bounded exhaustive DFS over attribute subsets, state combinations, poses and packetisations of independently encoded files; real simple iterator vs an independent reference view under all 64 option vectors",
+         "Every case (3 coordinate kinds x 6 poses x <=2/3 deviations over attribute presence, coordinate type, out-of-set state values at first/middle/last point, packets, cuts, index/ignored packets) is read under all 64 option vectors and compared point by point with a reference function written from the documentation; the failure clause is checked in both directions.",
+         "tolerances 1e-9 (trig/pose) and one f32 ulp (normalisation); non-finite coordinates compare by variant only",
+         "DESIGN.md §5 C05"),
  "C06": ("model_checking",
          "bounded-exhaustive enumeration (full product of blob length 0..1023 x 255 start residues, program DFS, descriptor tampering) on the real writer/reader",
          "All 261 120 (length, aligned start residue) pairs, multi-page lengths, every depth-<=3 program over blobs / all image kinds with and without masks / clouds with payload patterns unique per blob, and a menu of crafted descriptors and section-length patches are executed on the real code; payloads compared byte for byte; a crafted descriptor must yield Err or exactly `length` bytes as decoded by the independent page decoder.",
@@ -21,6 +36,11 @@ CLAIMED = {
          "Every prototype of length <=2 over 25 names x 14 types, every valid base plus <=2 extra records, every single-record mutation of the catalogue prototypes, 9 kinds of unstorable value at every position of a 9-point cloud, and every sequence of <=3/4 API sessions (incl. abandoned writers, double finalize, failing XML transformer) are executed; no call may panic, listed unstorable inputs must be rejected without side effects, and whenever finalize reports success the file must read back exactly.",
          "rejection is demanded only for the classes the statement lists; duplicates and other undocumented shapes are judged by no-panic and read-back only",
          "DESIGN.md §5 C10"),
+ "C13": ("model_checking",
+         "full product of 22 attribute types x 18 limit shapes x 4 attributes, each case holding every stored value of the range (or boundaries + mini-float lattice), read by the real simple iterator",
+         "For every (type, limits, attribute) the whole stored-value list is read with normalisation on and off: every delivered value must be in [0,1] and not NaN, non-decreasing in the stored value, equal to clamp((v-lo)/(hi-lo)) within 2.4e-7 for the range the statement designates, 0 for degenerate ranges; with normalisation off the stored value as f32.",
+         "ambiguous limit shapes accept any of the candidate ranges; non-range limits (NaN, lo>hi) only the invariants",
+         "DESIGN.md §5 C13"),
  "C14": ("model_checking",
          "deviation-bounded exhaustive DFS (<=2 quick / <=3 thorough deviations) over attribute groups, types, value orders and limit overrides on the real writer/reader",
          "48 attribute-group subsets x 4 sequence kinds, with every combination of at most 2 (3) deviations over coordinate/index/colour/intensity types, value sets, limit overrides and all 6 orders of three distinct values per attribute; stored bounds compared numerically with an independent fold, limits with the declared type range or the override.",
